@@ -214,6 +214,11 @@ impl<'c> Builder<'c> {
         self.ch.choose(cap + 1)
     }
 
+    /// A 1-in-3 choice in random mode; in enumeration mode a plain yes/no (no duplicate tapes).
+    fn one_in_three(&mut self) -> bool {
+        if self.rich { self.ch.choose(3) == 0 } else { self.ch.choose(2) == 0 }
+    }
+
     fn null_text(&mut self) -> &'static str {
         if self.rich && self.ch.choose(2) == 1 { "null" } else { "~" }
     }
@@ -319,8 +324,11 @@ impl<'c> Builder<'c> {
     /// With `aliases` on: sometimes replace the freshly built node (same type as `earlier`) by an
     /// alias of one of the earlier nodes, which gets an anchor.
     fn maybe_alias(&mut self, earlier: &mut [&mut Node], n: Node) -> Node {
-        if !self.aliases || earlier.is_empty() || self.ch.choose(3) != 0 {
+        if !self.aliases || earlier.is_empty() || !self.one_in_three() {
             return n;
+        }
+        if n.has_anchor() {
+            return n; // it defines an anchor that later nodes may refer to
         }
         let j = self.ch.choose(earlier.len());
         let target = &mut *earlier[j];
@@ -366,7 +374,7 @@ impl<'c> Builder<'c> {
         match ty {
             Ty::Newtype(_, inner) => self.build(inner),
             Ty::Option(inner) => {
-                if self.ch.choose(3) == 0 {
+                if self.one_in_three() {
                     self.pending_sibling = None;
                     Node::plain(self.null_text())
                 } else {
@@ -501,7 +509,7 @@ impl<'c> Builder<'c> {
         // decide presence first (tape order is fixed)
         let mut present = vec![true; n];
         for (i, p) in present.iter_mut().enumerate() {
-            if f.missing_value(i).is_some() && self.ch.choose(3) == 0 {
+            if f.missing_value(i).is_some() && self.one_in_three() {
                 *p = false;
             }
         }
@@ -509,8 +517,17 @@ impl<'c> Builder<'c> {
         let key_style = self.str_style();
         // merge-key plan (all choices up front so that edited rebuilds consume the same tape)
         let weave = self.merges && n >= 2;
-        let (mmode, mpos, mjunk) = if weave { (self.ch.choose(4), self.ch.choose(3), self.ch.choose(2) == 1) } else { (0, 0, false) };
-        let mask: Vec<bool> = (0..n).map(|_| weave && self.ch.choose(2) == 1).collect();
+        let mmode = if weave { self.ch.choose(4) } else { 0 };
+        let mask: Vec<bool> = (0..n).map(|_| weave && mmode != 0 && self.ch.choose(2) == 1).collect();
+        // enumeration mode: position and the overridden entry follow from the other choices
+        // (keeps the product affordable); random mode draws them
+        let (mpos, mjunk) = if !weave {
+            (0, false)
+        } else if self.rich {
+            (self.ch.choose(3), self.ch.choose(2) == 1)
+        } else {
+            ((mmode + mask.iter().filter(|m| **m).count()) % 3, mmode == 1)
+        };
         let mut touched = vec![false; n];
         let mut edits = Vec::new();
         self.container_edits(&mut edits);
